@@ -448,6 +448,14 @@ func execFlows(t *testing.T, p *Plan) *Result {
 					}
 				}
 				// (the tracked URI is the request URL as the handler saw it: path-only behind a real server, absolute in-process)
+				// only the tracking cookie named by the RelayState may be cleared: other pending flows of this
+				// browser must still be able to complete at their own URLs
+				for name := range cleared {
+					if relay == "" || name != "saml_"+relay {
+						res.violate(si, "foreign-tracking-cookie-cleared", "C17/foreign-tracking-cookie-cleared", "only the tracking cookie named by the RelayState is cleared", "also cleared "+flowOfCookie(flows, name), "another pending flow of this browser can no longer complete")
+						return res
+					}
+				}
 				if wantLoc == "" || (loc != wantLoc && loc != d.base+wantLoc) {
 					res.violate(si, "redirect-not-tracked-url", "C17/redirect-target/"+st.Relay, "redirect to the URL recorded in the authentic tracking cookie named by RelayState (or the default)", loc, "want "+wantLoc)
 					return res
@@ -500,6 +508,15 @@ func execFlows(t *testing.T, p *Plan) *Result {
 	}
 	res.SimMillis = time.Since(begin).Milliseconds()
 	return res
+}
+
+func flowOfCookie(flows []*flowRec, name string) string {
+	for i, f := range flows {
+		if f.cookieName == name {
+			return fmt.Sprintf("the tracking cookie of flow %d", i)
+		}
+	}
+	return "a tracking cookie of no known flow"
 }
 
 func fmtAuth[T ~int](m map[int]T) string {
